@@ -38,7 +38,7 @@ LEVEL_TEXT = {
 
 def main():
     props = [json.loads(l) for l in open(os.path.join(HERE, "properties.jsonl"))]
-    have = {f[:-3].upper() for f in os.listdir(os.path.join(HERE, "vf", "props")) if re.fullmatch(r"c\d\d\.py", f)}
+    have = set(json.load(open(os.path.join(HERE, "tools", "claimed.json"))))
     na_path = os.path.join(HERE, "tools", "not_applicable.json")
     na_extra = json.load(open(na_path)) if os.path.exists(na_path) else {}
     try:
